@@ -454,6 +454,44 @@ func VH_c11_reduce_empty_is_identity() {
 	zz.Assert(optEq(list.Reduce(list.FromSeq(os), mo), wantO), "list.Reduce(Option(Sum)) = fold from Empty")
 }
 
+// Reduce over lists of every representation (slice-backed, cons chain, cons prefix in front of a slice-backed or
+// lazy tail) with a non-commutative monoid equals the left-to-right fold
+func VH_c11_reduce_list_shapes() {
+	n := zz.Bound("reducelen3", 3, 4)
+	xs := zz.SliceInt("xs", n, 0, 0)
+	strs := make([]string, len(xs))
+	want := ""
+	for i, x := range xs {
+		strs[i] = string([]byte{byte('a' + zz.UFInt("ch", x)&3)})
+		want += strs[i]
+	}
+	k := zz.IntIn("prefix", 0, len(strs))
+	var l fp.List[string]
+	switch zz.Choice("tail", 3) {
+	case 0:
+		l = list.FromSeq(append([]string{}, strs[k:]...))
+	case 1:
+		rest := strs[k:]
+		l = list.Generate(func(i int) fp.Option[string] {
+			if i < len(rest) {
+				return fp.Some(rest[i])
+			}
+			return fp.None[string]()
+		})
+	case 2:
+		l = list.Empty[string]()
+		for i := len(strs) - 1; i >= k; i-- {
+			l = list.Concat(strs[i], l)
+		}
+	}
+	for i := k - 1; i >= 0; i-- {
+		l = list.Concat(strs[i], l) // cons cells in front
+	}
+	zz.Assert(list.Reduce(l, monoid.String) == want, "list.Reduce(String) over a cons prefix and any tail = left-to-right fold")
+	zz.Assert(list.FoldMap(l, monoid.String, func(s string) string { return s }) == want, "list.FoldMap(String, id) = left-to-right fold")
+	zz.Assert(seq.Reduce(fp.Seq[string](strs), monoid.String) == want && iterator.Reduce(iterator.FromSeq(strs), monoid.String) == want, "seq/iterator Reduce agree")
+}
+
 func VH_c11_foldmap() {
 	n := zz.Bound("reducelen", 3, 4)
 	xs := zz.SliceInt("xs", n, 0, 0)
